@@ -349,6 +349,24 @@ Proof. vm_compute. reflexivity. Qed.
         if outcome(hres[-1]) != outcome(fres):
             c.violation("history-dependent:after-refused-conversion", f"{fq} answers {outcome(hres[-1])} after conversions across dimensions were refused and {outcome(fres)} in a fresh process",
                         {"define": rdefine, "decls": rdecls, "in_between": refused, "final_query": fq, "interleaved": outcome(hres[-1]), "fresh": outcome(fres)})
+    # ---------------- a unit of a derived dimension is looked at by the planner (as a factor of a failing, or of a succeeding, conversion)
+    # BEFORE it is declared equal to a product of other units: the declaration counts from then on all the same
+    ddefine = [["vfpush", [[3, 1], [1, 1], [2, -2]]], ["vflump", [[3, 1]]], ["vfrod2", [[1, 1]]], ["vfpace2", [[1, 1]]], ["vftick", [[2, 1]]]]
+    ddecls = [[U_(("vfrod2", 1)), ["int", "2", "1"], U_(("vfpace2", 1))]]
+    late = [[U_(("vfpush", 1)), ["int", "5", "1"], U_(("vflump", 1), ("vfrod2", 1), ("vftick", -2))]]
+    dfinal = [q(U_(("vfpush", 1), ("vfrod2", -2)), U_(("vflump", 1), ("vfrod2", -1), ("vftick", -2))), q(U_(("vfpush", 1)), U_(("vflump", 1), ("vfpace2", 1), ("vftick", -2))),
+              q(U_(("vfpush", 2)), U_(("vflump", 2), ("vfrod2", 2), ("vftick", -4)))]
+    for pre in ([q(U_(("vfpush", 1), ("vfrod2", -2)), U_(("vflump", 1), ("vfrod2", -1), ("vftick", -2)))], [q(U_(("vfpush", 1), ("vfpace2", 1)), U_(("vfpush", 1), ("vfrod2", 1)), m=("int", "3", "1"))],
+                [q(U_(("vfpush", 1)), U_(("vflump", 1), ("vfpace2", 1), ("vftick", -2))), q(U_(("vfpush", 2)), U_(("vflump", 2), ("vfrod2", 2), ("vftick", -4)))]):
+        hres = impl("convsys_worker.py", {"systems": False, "define": ddefine, "decls": ddecls, "pre_cases": pre, "late_decls": late, "cases": dfinal + dfinal})["results"]
+        fres = impl("convsys_worker.py", {"systems": False, "define": ddefine, "decls": ddecls, "late_decls": late, "cases": dfinal})["results"]
+        outcome = lambda r: r.get("m") or r.get("err") or r.get("setup_err")
+        for j_, fq in enumerate(dfinal):
+            c.count(["looked-at-then-declared", pre, fq], nontrivial=True)
+            for rep_, hr in enumerate((hres[j_], hres[len(dfinal) + j_])):
+                if outcome(hr) != outcome(fres[j_]):
+                    c.violation("history-dependent:declared-after-planning", f"{fq} answers {outcome(hr)} (attempt {rep_ + 1}) when a conversion involving the unit was attempted before its equivalence was declared, {outcome(fres[j_])} in a fresh process",
+                                {"define": ddefine, "decls": ddecls, "attempted_before": pre, "then_declared": late, "final_query": fq, "interleaved": outcome(hr), "fresh": outcome(fres[j_])})
     # ---------------- plain conversions after compound ones through the same units
     # in between: rates, areal and cubic expressions over the volume / area units (conversions that go through the planner's factor
     # replacement and sort the alternatives of each unit); final: every plain conversion among those units.  Repeating a conversion
